@@ -1086,6 +1086,29 @@ fn lower_choices(probe: &Config) -> Vec<(&'static str, Tree)> {
             }
         }
     }
+    // ... and the own localized location spelled in the OTHER LETTER CASE (m/s/x for the marker
+    // S, e_name for E_name): on a case-sensitive file system that is a different entry, and no
+    // look-up may fall back to it
+    if let Some(p) = probe.localize("d/a") {
+        let flipped: String = p.chars().map(|c| if c.is_ascii_uppercase() { c.to_ascii_lowercase() } else if c.is_ascii_lowercase() && c != 'd' && c != 'a' { c.to_ascii_uppercase() } else { c }).collect();
+        let cs = comps(&flipped);
+        let full = cs.join("/");
+        if full != comps(&p).join("/") && !locd.contains_key(&full) {
+            let mut ok = true;
+            for i in 1..cs.len() {
+                let d = cs[..i].join("/");
+                if matches!(locd.get(&d), Some(Node::File(_))) {
+                    ok = false;
+                }
+            }
+            if ok {
+                for i in 1..cs.len() {
+                    locd.entry(cs[..i].join("/")).or_insert(Node::Dir);
+                }
+                locd.insert(full, file(b"own marker in the other letter case"));
+            }
+        }
+    }
     v.push(("localized d/a", locd.clone()));
     // only the OTHER languages' locations (the own localized location exists in no layer)
     let mut others = locd;
